@@ -27,6 +27,7 @@ type srView struct {
 	St      string `json:"st"`
 	Text    string `json:"text"`
 	Iface   string `json:"iface"`
+	IfaceN  string `json:"ifacenum"` // the same under the UseNumber conversions (number texts kept)
 	Kind    string `json:"kind"`
 	Len     int    `json:"len"`
 	Listing string `json:"listing"`
@@ -65,7 +66,7 @@ type srRes struct {
 func viewFromTLA(v interface{}) srView {
 	m := tlaval.Rec(v)
 	w := tlaval.Rec(m["views"])
-	return srView{St: tlaval.Str(m["st"]), Text: tlaval.Str(w["text"]), Iface: tlaval.Str(w["iface"]), Kind: tlaval.Str(w["kind"]),
+	return srView{St: tlaval.Str(m["st"]), Text: tlaval.Str(w["text"]), Iface: tlaval.Str(w["iface"]), IfaceN: tlaval.Str(w["ifacenum"]), Kind: tlaval.Str(w["kind"]),
 		Len: tlaval.Int(w["len"]), Listing: tlaval.Str(w["listing"])}
 }
 
@@ -187,11 +188,11 @@ func checkViews(res *srRes, c *srCase, api, text string, n *ast.Node, want *srVi
 	// it is called on, so the second one would only ever see a loaded node)
 	nu := *n
 	if un0, e0 := nu.InterfaceUseNumber(); e0 != nil {
-		res.bad(c, api, "interface_usenumber_error", text, want.Iface, e0.Error())
+		res.bad(c, api, "interface_usenumber_error", text, want.IfaceN, e0.Error())
 	} else if f, _ := numberKinds(un0); f != "" && f != "json.Number" {
 		res.bad(c, api, "interface_usenumber_number_type", text, "json.Number (on the node as located)", f)
-	} else if b0, _ := json.Marshal(un0); string(b0) != want.Iface {
-		res.bad(c, api, "interface_usenumber_differs", text, want.Iface, string(b0))
+	} else if b0, _ := json.Marshal(un0); string(b0) != want.IfaceN {
+		res.bad(c, api, "interface_usenumber_differs", text, want.IfaceN, string(b0))
 	}
 	iv, err := n.Interface()
 	ib, _ := json.Marshal(iv)
@@ -200,8 +201,8 @@ func checkViews(res *srRes, c *srCase, api, text string, n *ast.Node, want *srVi
 	}
 	un, err := n.InterfaceUseNumber()
 	ub, _ := json.Marshal(un)
-	if err != nil || string(ub) != want.Iface {
-		res.bad(c, api, "interface_usenumber_differs", text, want.Iface, string(ub))
+	if err != nil || string(ub) != want.IfaceN {
+		res.bad(c, api, "interface_usenumber_differs", text, want.IfaceN, string(ub))
 	}
 	// the representation of numbers is part of each view: float64 in the plain conversions, json.Number in the UseNumber ones
 	if f, _ := numberKinds(iv); f != "" && f != "float64" {
@@ -226,6 +227,23 @@ func checkViews(res *srRes, c *srCase, api, text string, n *ast.Node, want *srVi
 		if s2, e2 := n.StrictString(); e2 != nil || s2 != s {
 			res.bad(c, api, "string_accessor", text, s, s2)
 		}
+	case "lit":
+		if want.Text == "true" || want.Text == "false" {
+			b, e1 := n.Bool()
+			sb, e2 := n.StrictBool()
+			if e1 != nil || e2 != nil || b != (want.Text == "true") || sb != b {
+				res.bad(c, api, "bool_accessors", text, want.Text, fmt.Sprint(b, sb, e1, e2))
+			}
+		} else {
+			wf, _ := strconv.ParseFloat(want.Text, 64)
+			f64, e1 := n.Float64()
+			sf, e2 := n.StrictFloat64()
+			num, e3 := n.Number()
+			i64, e4 := n.Int64()
+			if e1 != nil || e2 != nil || e3 != nil || e4 != nil || f64 != wf || sf != wf || string(num) != want.Text || i64 != int64(wf) {
+				res.bad(c, api, "number_accessors", text, want.Text, fmt.Sprint(f64, sf, num, i64, e1, e2, e3, e4))
+			}
+		}
 	case "null":
 		if n.TypeSafe() != ast.V_NULL {
 			res.bad(c, api, "type", text, "null", fmt.Sprint(n.TypeSafe()))
@@ -237,11 +255,11 @@ func checkViews(res *srRes, c *srCase, api, text string, n *ast.Node, want *srVi
 			res.bad(c, api, "array_differs", text, want.Iface, string(ab))
 		}
 		if au, e2 := n.ArrayUseNumber(); e2 != nil {
-			res.bad(c, api, "array_usenumber_error", text, want.Iface, e2.Error())
+			res.bad(c, api, "array_usenumber_error", text, want.IfaceN, e2.Error())
 		} else if f, _ := numberKinds(au); f != "" && f != "json.Number" {
 			res.bad(c, api, "array_usenumber_number_type", text, "json.Number", f)
-		} else if b2, _ := json.Marshal(au); string(b2) != want.Iface {
-			res.bad(c, api, "array_usenumber_differs", text, want.Iface, string(b2))
+		} else if b2, _ := json.Marshal(au); string(b2) != want.IfaceN {
+			res.bad(c, api, "array_usenumber_differs", text, want.IfaceN, string(b2))
 		}
 		if got := applyAstOp(n, &astOp{O: "Iterate"}, false); got != want.Listing {
 			res.bad(c, api, "iteration_differs", text, want.Listing, got)
@@ -267,11 +285,11 @@ func checkViews(res *srRes, c *srCase, api, text string, n *ast.Node, want *srVi
 			res.bad(c, api, "map_differs", text, want.Iface, string(mb))
 		}
 		if mu, e2 := n.MapUseNumber(); e2 != nil {
-			res.bad(c, api, "map_usenumber_error", text, want.Iface, e2.Error())
+			res.bad(c, api, "map_usenumber_error", text, want.IfaceN, e2.Error())
 		} else if f, _ := numberKinds(mu); f != "" && f != "json.Number" {
 			res.bad(c, api, "map_usenumber_number_type", text, "json.Number", f)
-		} else if b2, _ := json.Marshal(mu); string(b2) != want.Iface {
-			res.bad(c, api, "map_usenumber_differs", text, want.Iface, string(b2))
+		} else if b2, _ := json.Marshal(mu); string(b2) != want.IfaceN {
+			res.bad(c, api, "map_usenumber_differs", text, want.IfaceN, string(b2))
 		}
 		if got := applyAstOp(n, &astOp{O: "Iterate"}, false); got != want.Listing {
 			res.bad(c, api, "iteration_differs", text, want.Listing, got)
@@ -401,7 +419,7 @@ func searchHandle(in []byte) []byte {
 			sub := func(x string) string { return strings.ReplaceAll(x, `"x"`, `"`+long+`"`) }
 			c.Doc = sub(c.Doc)
 			for _, v := range []*srView{&c.Get, &c.Node} {
-				v.Text, v.Iface, v.Listing = sub(v.Text), sub(v.Iface), sub(v.Listing)
+				v.Text, v.Iface, v.IfaceN, v.Listing = sub(v.Text), sub(v.Iface), sub(v.IfaceN), sub(v.Listing)
 			}
 			ev := make([]string, len(c.Events))
 			for i, e := range c.Events {
